@@ -333,6 +333,90 @@ type target struct {
 	conds              bool
 }
 
+
+// writeSet lists, sorted and de-duplicated, the stores of a function that go through something
+// other than a plain local variable: "P:" through a parameter or the receiver, "L:" through a
+// local (an alias the function made), "D:" a delete() on a map, "M:" a method call on a plan or
+// step (Add/Remove on a Set mutates it).  Function literals inside the body are included.
+func writeSet(fd *ast.FuncDecl) string {
+	params := map[string]bool{}
+	if fd.Recv != nil {
+		for _, f := range fd.Recv.List {
+			for _, n := range f.Names {
+				params[n.Name] = true
+			}
+		}
+	}
+	for _, f := range fd.Type.Params.List {
+		for _, n := range f.Names {
+			params[n.Name] = true
+		}
+	}
+	rootOf := func(e ast.Expr) (string, bool) {
+		plain := true
+		for {
+			switch x := e.(type) {
+			case *ast.Ident:
+				return x.Name, plain
+			case *ast.SelectorExpr:
+				e, plain = x.X, false
+			case *ast.IndexExpr:
+				e, plain = x.X, false
+			case *ast.StarExpr:
+				e, plain = x.X, false
+			case *ast.ParenExpr:
+				e = x.X
+			default:
+				return "?", false
+			}
+		}
+	}
+	set := map[string]bool{}
+	record := func(kind string, e ast.Expr) {
+		root, plain := rootOf(e)
+		if plain && kind != "D" {
+			return // assignment to a variable itself
+		}
+		tag := "L"
+		if params[root] {
+			tag = "P"
+		}
+		if kind != "" {
+			tag = kind + tag
+		}
+		set[tag+":"+src(e)] = true
+	}
+	ast.Inspect(fd.Body, func(n ast.Node) bool {
+		switch x := n.(type) {
+		case *ast.AssignStmt:
+			for _, l := range x.Lhs {
+				record("", l)
+			}
+		case *ast.IncDecStmt:
+			record("", x.X)
+		case *ast.CallExpr:
+			if id, ok := x.Fun.(*ast.Ident); ok && id.Name == "delete" && len(x.Args) > 0 {
+				record("D", x.Args[0])
+			}
+			if sel, ok := x.Fun.(*ast.SelectorExpr); ok {
+				switch sel.Sel.Name {
+				case "Add", "Remove", "Store", "Delete", "LoadOrStore":
+					if _, isIdent := sel.X.(*ast.Ident); !isIdent {
+						set["M:"+src(sel.X)+"."+sel.Sel.Name] = true
+					}
+				}
+			}
+		}
+		return true
+	})
+	keys := []string{}
+	for k := range set {
+		keys = append(keys, k)
+	}
+	sort.Strings(keys)
+	return strings.Join(keys, " ; ")
+}
+
 func recvTypeName(fd *ast.FuncDecl) (typ, name string) {
 	if fd.Recv == nil || len(fd.Recv.List) == 0 {
 		return "", ""
@@ -412,6 +496,27 @@ func main() {
 		if !found {
 			fmt.Fprintf(&out, "Definition gen_%s_%s : string := \"<missing>\".\n\n", strings.TrimSuffix(t.file, ".go"), t.fn)
 		}
+	}
+	// write sets of the execution path
+	for _, w := range []struct{ file, fn string }{
+		{"gateway.go", "Execute"}, {"execute.go", "Execute"}, {"execute.go", "executeStep"}, {"execute.go", "executeOneStep"},
+		{"execute.go", "findSelection"}, {"execute.go", "executorFindInsertionPoints"}, {"execute.go", "executorExtractValue"},
+		{"execute.go", "executorInsertObject"}, {"execute.go", "executorMergeObject"}, {"execute.go", "executorMergeValue"},
+		{"execute.go", "executorGetPointData"}, {"middlewares.go", "scrubInsertionIDs"},
+	} {
+		val := "<missing>"
+		for _, d := range files[w.file].Decls {
+			if fd, ok := d.(*ast.FuncDecl); ok && fd.Body != nil && fd.Name.Name == w.fn {
+				if w.fn == "Execute" {
+					rt, _ := recvTypeName(fd)
+					if (w.file == "gateway.go") != (rt == "Gateway") {
+						continue
+					}
+				}
+				val = writeSet(fd)
+			}
+		}
+		fmt.Fprintf(&out, "Definition gen_writes_%s_%s : string :=\n  %s.\n\n", strings.TrimSuffix(w.file, ".go"), w.fn, coqString(val))
 	}
 	// constants
 	consts := map[string]string{}
